@@ -351,7 +351,8 @@ else:
 
                             is_default = True
 
-                    kwargs[field.name] = Argument(
+                    # the name of the argument (private attributes `_x` are initialized with `x`)
+                    kwargs[getattr(field, "alias", None) or field.name] = Argument(
                         value=field_value, is_default=is_default
                     )
 
@@ -362,6 +363,9 @@ else:
                 # positional arguments are used for the fields in order
                 init_fields = [f for f in attrs.fields(type(value)) if f.init]
                 return getattr(value, init_fields[pos_or_name].name)
+            for field in attrs.fields(type(value)):
+                if (getattr(field, "alias", None) or field.name) == pos_or_name:
+                    return getattr(value, field.name)
             return getattr(value, pos_or_name)
 
 
